@@ -66,7 +66,14 @@ pub assume_specification [<Token as PartialEq>::eq] (a: &Token, b: &Token) -> (r
         U.free(U.const(CRYPT, None, c))
     U.free(U.const(CRYPT, None, 'UNUSED_AAD', ensures='UNUSED_AAD@.len() == 0'))
     U.add(SPEC)
-    U.free(U.fn(CRYPT, None, 'decrypt', ensures=[
+    # robustness: equivalent ways of cutting the payload (range indexing, split_at, nested slices) must all verify
+    U.add('''
+pub broadcast proof fn lemma_subrange_of_subrange<A>(s: Seq<A>, a: int, b: int, c: int, d: int)
+    requires 0 <= a <= b <= s.len(), 0 <= c <= d <= b - a
+    ensures #[trigger] s.subrange(a, b).subrange(c, d) == s.subrange(a + c, a + d)
+{ assert(s.subrange(a, b).subrange(c, d) =~= s.subrange(a + c, a + d)); }
+''')
+    U.free(U.fn(CRYPT, None, 'decrypt', ghost=[(('body_start',), 'broadcast use lemma_subrange_of_subrange;')], ensures=[
         ('short_payload_rejected', 'payload@.len() <= 28 ==> r is Err'),
         ('only_what_aead_open_returned', '''r is Ok ==> payload@.len() > 28
             && aead_open(key@, payload@.subrange(0, 12), payload@.subrange(28, payload@.len() as int), payload@.subrange(12, 28)) == Some(r->Ok_0@)'''),
